@@ -1,6 +1,7 @@
 (* Codec: the obligations that are re-evaluated on the freshly translated programs. *)
 From NV Require Import Lib.Base Codec.Lang Codec.Def Codec.Sem Codec.Total Codec.LoopLemmas Codec.Dispatch Codec.DispatchProofs
-  Codec.WF Codec.RoundTrip Codec.GenDefs Gen.GenMsgs Gen.GenTypes Gen.GenDispatch.
+  Codec.WF Codec.RoundTrip Codec.SpecTable Codec.SpecProofs Codec.SpecDecode Codec.GenDefs Spec.TS24501Tables
+  Gen.GenMsgs Gen.GenTypes Gen.GenDispatch.
 From Coq Require Import String.
 Open Scope N_scope.
 
@@ -84,3 +85,18 @@ Proof. intros H Hw. apply roundtrip; [eapply def_rt; eassumption|exact Hw]. Qed.
 (* the stricter reading "a header that names a type whose body pointer is nil is an error" fails: F20 *)
 Lemma encode_nil_body_refuted : exists pm, plain_encode (Some pm) = Panic.
 Proof. exists (mkpm true [126; 0; 65] []). vm_compute. reflexivity. Qed.
+
+(* ---- C04 ---- *)
+Lemma all_spec : forallb (fun p => spec_defb (snd p)) defs = true.
+Proof. vm_compute. reflexivity. Qed.
+
+Lemma def_spec n d : find_def n = Some d -> spec_defb d = true.
+Proof.
+  unfold Dispatch.find_def. cbn [t_defs T]. intro H. destruct (find _ defs) as [p|] eqn:E; inversion H; subst.
+  apply find_some in E as [Hin _].
+  pose proof all_spec as W. rewrite forallb_forall in W. exact (W p Hin).
+Qed.
+
+(* the specification view of the current source equals the pinned TS 24.501 element tables *)
+Lemma tables_eq_pinned : map (fun p => (fst p, abstract (snd p))) defs = ts24501_tables.
+Proof. vm_compute. reflexivity. Qed.
